@@ -12,7 +12,7 @@ from ..common import rng_for
 
 OPTIMIZED_SHARDS = 1  # shards run once more in an interpreter started with -O (vf/run.py)
 LEVEL = "exploration"
-TECHNIQUE = "runtime monitors on Preemphasize.apply / Dither.apply: explicit-recurrence oracle, write sanitizer (read-only inputs + digests), seeded statistical identities"
+TECHNIQUE = "runtime monitors on Preemphasize.apply / Dither.apply: explicit-recurrence oracle, write sanitizer (read-only inputs + digests), seeded statistical identities; ambient-settings monitor (stateless calls repeated under -W error and np.errstate raise)"
 RULE = (
     "cases: seeded (length in {0,1,2,3,..} incl. long, dtype in float16/32/64,int16/32, coeff, in_place, read-only flag, contiguous or strided view), every fifth Dither through a copy (deepcopy / pickle / copy); "
     "non-trivial = length >= 2 (the recurrence has something to do) / dither coeff > 0; distinct by (op, dtype, length, coeff, in_place, data seed)"
